@@ -59,6 +59,24 @@ func init() {
 }
 
 var checks = map[string]*Check{
+	"C13": {ID: "C13", Harness: "core", Func: "C13", Category: "exploration", QuickDeadline: 240, ThoroughDeadline: 1500,
+		Engine: "E1", DesignRef: "6/C13",
+		Technique: "bounded-exhaustive enumeration of abstract specs x representations x pattern syntaxes x compile variants; differential of complete behaviour trees (all message sequences up to a bound) against the Go-structure rendering",
+		LevelText: "Every abstract spec of the family is rendered in every supported representation and pattern syntax, compiled once / twice / through a serialise-reload cycle, and its complete behaviour tree over all short message sequences must equal that of the Go-structure rendering; recompilation must not change the spec; unknown interpreters, branching types and pattern syntaxes must be rejected by Compile.",
+		LevelNote: "Trusted: the document renderers (rt/ref/rstep Doc/YAML), encoding/json and the two YAML libraries as loaders (they are what the hosts use).",
+		Assumptions: commonAssumptions},
+	"C09": {ID: "C09", Harness: "core", Func: "C09", Category: "model_checking", QuickDeadline: 240, ThoroughDeadline: 1500,
+		Engine: "E1", DesignRef: "6/C09",
+		Technique: "explicit enumeration of all message histories x all subsets of save points; differential between the in-memory run and the run that persists/reloads the state through JSON at the chosen boundaries",
+		LevelText: "Every history up to the length bound over a vocabulary of value-producing ECMAScript actions and value-inspecting branches is run twice on the real engine - state kept in memory vs. state marshalled to JSON and re-read at every subset of message boundaries - and the two runs must agree at every message on node, bindings and emitted messages.",
+		LevelNote: "Trusted: encoding/json as the persistence format (what the hosts use). Only the listed producers/inspectors are covered.",
+		Assumptions: commonAssumptions},
+	"C08": {ID: "C08", Harness: "core", Func: "C08", Category: "exploration", QuickDeadline: 240, ThoroughDeadline: 1500,
+		Engine: "E1", DesignRef: "6/C08",
+		Technique: "bounded-exhaustive enumeration of emit/mutate/fail programs (every failure mode after every emission prefix) in every position of an action chain, observed through Walk and through a crew, against the reference emission sequence",
+		LevelText: "Every program of the emit/set/fail language up to the length bound is executed as action (3 positions) and as guard, under three error-routing modes, through Spec.Walk and through sio.Crew.ProcessMsg; the emitted messages must be exactly those of the successfully completed actions, in order.",
+		LevelNote: "Trusted: action-language model; cancellation is delivered through the harness context at a fixed tick (the exact interruption instant inside goja is not controlled, and unobservable here).",
+		Assumptions: commonAssumptions},
 	"C07": {ID: "C07", Harness: "core", Func: "C07", Category: "exploration", QuickDeadline: 240, ThoroughDeadline: 1500, CrashIsViolation: true,
 		Engine: "E1", DesignRef: "6/C07",
 		Technique: "conjunction-bounded exhaustive enumeration over independent hostile-input dimensions (all combinations of at most k non-default dimensions) with a panic trap and hang horizon around every load/compile/step/walk, plus reference comparison where defined",
